@@ -14,11 +14,11 @@
       StripedSequence does NOT survive a reallocating configure: finding F24 family) and extents — the extent a
       consumer walking the exported shape/strides can reach is inside rows * stride * itemsize, stated on the
       shape/strides formulas REGENERATED from lightmotif-py/lightmotif/lib.rs by translate/pyidx_slots.py
-      (coq/pyidx/GenSlots.v: the bridge to C18). *)
+      (coq/footprint/GenPyViews.v, generated on every run by props/c06.py from the output of C18's translator: the
+      bridge to C18 — same formulas, no dependency on the build of coq/pyidx). *)
 From Coq Require Import List ZArith Bool Lia.
 From LMBase Require Import Res.
-From LMPyIdx Require Import GenSlots.
-From LMFootprint Require Import FpModel FpProofs FpNeon FpHistory FpHistoryProofs FpCap FpCapProofs FpInit FpPy FpPyProofs FpUsize FpUsizeProofs.
+From LMFootprint Require Import GenPyViews FpModel FpProofs FpNeon FpHistory FpHistoryProofs FpCap FpCapProofs FpInit FpPy FpPyProofs FpUsize FpUsizeProofs.
 Import ListNotations.
 Open Scope Z_scope.
 
